@@ -204,6 +204,22 @@ func execC11(c C11Case, bound time.Duration) (facts map[string]bool, err error) 
 	}
 
 	frames, rest := SplitFrames(sent)
+	var keptErrs []error
+	var keptExp []ExpFrame
+	defer func() {
+		// error values handed out earlier must not have been altered by later receives
+		if err == nil {
+			for k := range keptErrs {
+				if d := CheckClientError(keptErrs[k], keptExp[k]); d != "" {
+					if ve, ok := keptErrs[k].(*varlink.Error); ok && ve.Name == keptExp[k].Error {
+						continue // (generic form of a standard error: compared when it was received)
+					}
+					err = fmt.Errorf("an error value returned by an earlier receive changed after later receives: %s", d)
+					return
+				}
+			}
+		}
+	}()
 	for i := 0; i < c.Receives; i++ {
 		var raw json.RawMessage
 		fl, rerr := receive(ctx, &raw)
@@ -262,6 +278,8 @@ func execC11(c C11Case, bound time.Duration) (facts map[string]bool, err error) 
 			if d != "" {
 				return facts, fmt.Errorf("%serror frame %s: %s", pre, Preview(frames[i]), d)
 			}
+			keptErrs = append(keptErrs, rerr)
+			keptExp = append(keptExp, e)
 			continue
 		}
 		if rerr != nil {
